@@ -57,6 +57,7 @@ def gen_coq():
     s += G.defz('K_MODULO_VELOCITY_WIDTH', ped.MODULO_VELOCITY_ENCODER_WIDTH)
     s += G.defz('K_PERF_MIN_PITCH', pl.MIN_MIDI_PITCH)
     s += G.defz('K_PERF_MAX_PITCH', pl.MAX_MIDI_PITCH)
+    s += G.defz('K_MAX_NUM_VELOCITY_BINS', pl.MAX_NUM_VELOCITY_BINS)
     return s
 
 
@@ -107,6 +108,12 @@ def _npe_out(e):
     return [_pe_out(x) for x in e]
 
 
+def _int_label(l):
+    if not isinstance(l, int):          # 2 ** negative pitch is a float: outside the integer label space
+        raise TypeError('non-integer label')
+    return l
+
+
 class _H(object):
     """One real encoder object plus the codecs between wire events/labels and Python ones."""
 
@@ -144,7 +151,7 @@ def _handle(op, c):
         return _H(e, list(e.num_classes), _npe, _npe_out, tuple, list)
     if op == 'pianoroll':
         e = pred.PianorollEncoderDecoder(c['size'])
-        return _H(e, e.num_classes, tuple, list)
+        return _H(e, e.num_classes, tuple, list, lab_out=_int_label)
     raise ValueError(op)
 
 
@@ -155,6 +162,7 @@ def _bundle(h, es_w, ps, ls_w):
     out = [e.input_size, h.ncls]
     out.append([_opt(lambda: _vec(e.events_to_input(es, p))) for p in ps])
     labs = [_opt(lambda: e.events_to_label(es, p)) for p in ps]
+    labs = [l if l and _opt(lambda: h.lab_out(l[0])) else [] for l in labs]
     out.append([[h.lab_out(l[0])] if l else [] for l in labs])
     dec = []
     for p, l in zip(ps, labs):
